@@ -40,6 +40,11 @@ struct EncCase
     uint8_t reuseObjects{0};  // 1: the earlier calls and the call under test encode from the same Packet objects, refilled in place
     uint8_t decoderSawUnfinished{0};  // C01: 1..3 = the decoder received that many frames (first segment + intermediaries) of an
                                       // earlier message on the same endpoint whose tail was lost, before the frames under test
+    uint32_t bulkFrames{0};  // > 0: before anything else the encoder emits that many one-frame batches' worth of frames (one call of N one-byte
+                             // packets at max = 25), so that the call under test runs next to / across the wrap of the 16-bit frame counter
+    uint8_t flagToggle{0};   // != 0 (bits of 0x33): the very Packet objects of the call under test were encoded once before (same context)
+                             // with these common-flag bits inverted, and got their final flags through Packet::setCommonFlag(bit, value)
+                             // only - no other setter touched them in between (a sender that re-sends a packet with one flag changed)
 
     void io(Ar& a)
     {
@@ -54,6 +59,8 @@ struct EncCase
         a.optionalNum("abortAfter", abortAfter);
         a.optionalNum("reuseObjects", reuseObjects);
         a.optionalNum("decoderSawUnfinished", decoderSawUnfinished);
+        a.optionalNum("bulkFrames", bulkFrames);
+        a.optionalNum("flagToggle", flagToggle);
     }
 };
 
@@ -324,12 +331,53 @@ inline void runPriorCalls(lib::Encoder& enc, const EncCase& c)
 // Runs the earlier calls and returns the batch for the call under test.  With reuseObjects all calls encode from one pool of
 // Packet objects whose storage is reserved once (a sender that keeps and refills its packet objects): the packets of the call
 // under test then sit at the addresses the earlier calls' packets had.
+inline void bulkPrefix(lib::Encoder& enc, const EncCase& c)
+{
+    if (!c.bulkFrames)
+        return;
+    PacketRecipe r;
+    r.kind = rkGeneric;
+    r.msgType = 1;
+    r.ptype = 0x20;
+    r.len = 1;
+    std::vector<lib::Packet> bulk(c.bulkFrames, buildPacket(r, 1));
+    enc.encode(bulk.begin(), bulk.end(), lib::DataContext{0, 25});
+}
+
+// flagToggle: the objects in `batch` currently hold the recipes with the toggled flag bits inverted; they are encoded once and then
+// receive their final flags through the single-bit setter only
+inline void resendWithFlagsChanged(lib::Encoder& enc, const EncCase& c, std::vector<lib::Packet>& batch)
+{
+    const uint8_t bits = static_cast<uint8_t>(c.flagToggle & 0x33);
+    if (!bits || batch.empty())
+        return;
+    encodeVia(enc, batch, lib::DataContext{c.minB, c.maxB}, c.overload);
+    for (size_t i = 0; i < batch.size(); ++i)
+        for (uint8_t bit : {uint8_t(0x01), uint8_t(0x02), uint8_t(0x10), uint8_t(0x20)})
+            if (bits & bit)
+                batch[i].setCommonFlag(static_cast<lib::MessageHeader::CommonFlags>(bit), (c.packets[i].flags & bit) != 0);
+}
+inline PacketRecipe withFlagsInverted(const PacketRecipe& r, const EncCase& c)
+{
+    PacketRecipe x = r;
+    x.flags = static_cast<uint8_t>(x.flags ^ (c.flagToggle & 0x33));
+    return x;
+}
+
 inline std::vector<lib::Packet> priorCallsThenBatch(lib::Encoder& enc, const EncCase& c)
 {
+    bulkPrefix(enc, c);
     if (!c.reuseObjects)
     {
         runPriorCalls(enc, c);
-        return buildBatch(c);
+        if (!(c.flagToggle & 0x33))
+            return buildBatch(c);
+        std::vector<lib::Packet> batch;
+        batch.reserve(c.packets.size());
+        for (const auto& r : c.packets)
+            batch.push_back(buildPacket(withFlagsInverted(r, c), c.version));
+        resendWithFlagsChanged(enc, c, batch);
+        return batch;
     }
     std::vector<lib::Packet> pool;
     size_t cap = c.packets.size();
@@ -348,7 +396,8 @@ inline std::vector<lib::Packet> priorCallsThenBatch(lib::Encoder& enc, const Enc
     }
     pool.resize(c.packets.size());
     for (size_t i = 0; i < c.packets.size(); ++i)
-        fillPacket(pool[i], c.packets[i], c.version);
+        fillPacket(pool[i], withFlagsInverted(c.packets[i], c), c.version);
+    resendWithFlagsChanged(enc, c, pool);
     return pool;  // moved: the storage, and with it every address, stays
 }
 
@@ -358,6 +407,12 @@ inline rc::Gen<EncCase> withPriorCalls(rc::Gen<EncCase> base, const EncGenParams
     return rc::gen::exec([base, params]() {
         EncCase c = *base;
         c.overload = *rc::gen::weightedElement<uint8_t>({{3, 0}, {2, 1}, {2, 2}, {2, 3}});
+        // one case in sixteen: the encoder has emitted 65520..65536 (or twice that) frames before, so the call under test runs across the
+        // wrap of the frame counter; one in eight: the packet objects were sent once before with single flag bits inverted
+        if (*range<int>(0, 15) == 0)
+            c.bulkFrames = *rc::gen::weightedOneOf<uint32_t>({{4, range<uint32_t>(65520, 65536)}, {1, range<uint32_t>(131056, 131072)}});
+        if (*range<int>(0, 7) == 0)
+            c.flagToggle = *rc::gen::element<uint8_t>(0x01, 0x02, 0x10, 0x20, 0x33, 0x11);
         if (*range<int>(0, 1) == 0)
             return c;
         EncGenParams p = params;
@@ -483,6 +538,9 @@ inline void normalizeEncCase(EncCase& c, const EncNormParams& np)
     c.overload = static_cast<uint8_t>(c.overload % 4);
     c.reuseObjects = c.reuseObjects ? 1 : 0;
     c.decoderSawUnfinished = static_cast<uint8_t>(c.decoderSawUnfinished % 4);
+    if (c.bulkFrames && (c.bulkFrames < 65500 || c.bulkFrames > 65536))
+        c.bulkFrames = 0;  // only prefixes that end next to the counter wrap are worth their cost here
+    c.flagToggle = static_cast<uint8_t>(c.flagToggle & 0x33);
     if (c.abortAfter < -1)
         c.abortAfter = -1;
     if (c.prior.size() > 3)
